@@ -1362,7 +1362,8 @@ def stretch_note_sequence(note_sequence, stretch_factor, in_place=False):
   events = itertools.chain(
       stretched_sequence.time_signatures, stretched_sequence.key_signatures,
       stretched_sequence.tempos, stretched_sequence.pitch_bends,
-      stretched_sequence.control_changes, stretched_sequence.text_annotations)
+      stretched_sequence.control_changes, stretched_sequence.text_annotations,
+      stretched_sequence.section_annotations)
   for event in events:
     event.time *= stretch_factor
 
